@@ -47,7 +47,8 @@ namespace sim {
   static int current = 0;
   static bool checking = false;     // heap checker reports are fatal only while checking
 
-  struct Switch { int tid; long step; int target; bool fired; };
+  struct Switch { int region; int tid; long step; int target; bool fired; };
+  static int region = 0;            // parallel region counter (threads are numbered from 1 again in every region)
   static Switch SW[MAXSW];
   static int nsw = 0;
   static long switchesFired = 0, totalSteps = 0;
@@ -160,7 +161,7 @@ namespace sim {
     }
     for (int i = 0; i < nsw; ++i) {
       Switch &s = SW[i];
-      if (!s.fired && s.tid == me && s.step == t.steps) {
+      if (!s.fired && s.tid == me && s.step == t.steps && (s.region < 0 || s.region == region)) {
         s.fired = true;
         if (s.target != me && s.target >= 1 && s.target <= nthreads && runnable(s.target)) {
           ++switchesFired;
@@ -219,9 +220,23 @@ namespace sim {
     return id;
   }
 
-  void addSwitch(int tid, long step, int target) {
-    if (nsw < MAXSW) { SW[nsw].tid = tid; SW[nsw].step = step; SW[nsw].target = target; SW[nsw].fired = false; ++nsw; }
+  void addSwitch(int tid, long step, int target, int region_) {
+    if (nsw < MAXSW) { SW[nsw].region = region_; SW[nsw].tid = tid; SW[nsw].step = step; SW[nsw].target = target; SW[nsw].fired = false; ++nsw; }
   }
+
+  // A new team of threads (ids 1..n again); switches may be tied to a region number (1, 2, ...)
+  int beginRegion() {
+    nthreads = 0;
+    for (int t = 0; t < MAXT; ++t) { T[t].used = false; T[t].done = false; T[t].started = false; T[t].blockedOn = 0; T[t].steps = 0; }
+    ++region;
+    if (tracing && traceFile) {
+      uint64_t rec[2] = { ((uint64_t) 8 << 48) | (uint64_t) region, 0 };
+      fwrite(rec, sizeof(rec), 1, traceFile);
+    }
+    return region;
+  }
+
+  void mark(int kind, const void *addr) { point(kind, addr, 0); }
 
   void setTrace(const char *file) { tracing = true; traceFile = fopen(file, "wb"); }
 
@@ -236,8 +251,10 @@ namespace sim {
     sem_wait(&mainSem);
     active = false;
     for (int t = 1; t <= nthreads; ++t) pthread_join(T[t].handle, 0);
-    if (traceFile) { fclose(traceFile); traceFile = 0; }
+    if (traceFile) fflush(traceFile);
   }
+
+  void closeTrace() { if (traceFile) { fclose(traceFile); traceFile = 0; } }
 
   long heapAllocs() { return nAllocs; }
   long heapFrees() { return nFrees; }
